@@ -40,18 +40,29 @@ func (fr *Frame) exec(ins ssa.Instruction, st *State, rch Term) {
 	case *ssa.DebugRef:
 		return
 	case *ssa.Alloc:
-		fr.vals[x] = fr.alloc(x.Type().(*types.Pointer).Elem(), st)
+		t := x.Type().(*types.Pointer).Elem()
+		if _, isArr := t.Underlying().(*types.Array); !x.Heap && !isArr && !hasEmbeddedArray(t) {
+			// non-escaping local variable: its cells live in the state, not in the heap
+			vc.nfresh++
+			pl := &Place{Root: t, Cur: t, Local: fmt.Sprintf("L$%s.%s!%d", fr.prefix, x.Name(), vc.nfresh)}
+			vc.storeTo(pl, vc.zeroVal(t), st, nil)
+			fr.vals[x] = vc.ptrVal(pl)
+			return
+		}
+		fr.vals[x] = fr.alloc(t, st)
 	case *ssa.FieldAddr:
 		base := fr.value(x.X)
 		pl := vc.placeOf(base)
-		if pl.Path == "" && base.Pl == nil {
+		if pl.Local != "" {
+			// local variable: never nil
+		} else if pl.Path == "" && base.Pl == nil {
 			fr.safety("nil", x, rch, not(eq(base.t(), "0")))
 		} else if pl.Path == "" {
 			fr.safety("nil", x, rch, not(eq(pl.Addr, "0")))
 		}
 		stt := pl.Cur.Underlying().(*types.Struct)
 		f := stt.Field(x.Field)
-		np := &Place{Root: pl.Root, Addr: pl.Addr, Path: joinPath(pl.Path, f.Name()), Cur: f.Type()}
+		np := &Place{Root: pl.Root, Addr: pl.Addr, Path: joinPath(pl.Path, f.Name()), Cur: f.Type(), Local: pl.Local}
 		fr.vals[x] = vc.ptrVal(np)
 	case *ssa.Field:
 		base := fr.value(x.X)
@@ -65,7 +76,7 @@ func (fr *Frame) exec(ins ssa.Instruction, st *State, rch Term) {
 		if isString(base.T) {
 			fr.safety("bounds", x, rch, and(sx("<=", "0", idx), sx("<", idx, base.C[1])))
 			vc.regFam("E$uint8", "Int")
-			fr.vals[x] = Val{T: x.Type(), C: []Term{sel(vc.get(st, "E$uint8"), add(base.C[0], idx))}}
+			fr.vals[x] = Val{T: x.Type(), C: []Term{vc.sel(vc.get(st, "E$uint8"), add(base.C[0], idx))}}
 			vc.assumeIf(rch, vc.wf(fr.vals[x], st))
 		} else {
 			unsup("Index on %s", base.T)
@@ -76,7 +87,7 @@ func (fr *Frame) exec(ins ssa.Instruction, st *State, rch Term) {
 			idx := fr.value(x.Index).t()
 			fr.safety("bounds", x, rch, and(sx("<=", "0", idx), sx("<", idx, base.C[1])))
 			vc.regFam("E$uint8", "Int")
-			v := Val{T: x.Type(), C: []Term{sel(vc.get(st, "E$uint8"), add(base.C[0], idx))}}
+			v := Val{T: x.Type(), C: []Term{vc.sel(vc.get(st, "E$uint8"), add(base.C[0], idx))}}
 			fr.vals[x] = fr.named(x, v)
 			vc.assumeIf(rch, vc.wf(fr.vals[x], st))
 		} else {
